@@ -433,6 +433,15 @@ Theorem C13_lagrange_shapes_reproduce_affine : forall (ref : nat -> R * R) (n nb
     (forall j, j < nb -> wsumf 0 Gy (fun a => pb j (ref a)) = dyb j xi) ->
     repro ref n xi N Gx Gy 0.
 Proof. exact lagrange_repro. Qed.
+(* the span hypotheses are satisfiable: the monomial basis 1, eta0, eta1 with its derivative functions *)
+Example C13_lagrange_span_nonvacuous :
+  let pb := fun (j : nat) (eta : R * R) => match j with 0 => 1%R | 1 => fst eta | _ => snd eta end in
+  let dxb := fun (j : nat) (_ : R * R) => match j with 1 => 1%R | _ => 0%R end in
+  let dyb := fun (j : nat) (_ : R * R) => match j with 2 => 1%R | _ => 0%R end in
+  (forall eta, wsumf 0 [1; 0; 0]%R (fun j => pb j eta) = 1%R /\ wsumf 0 [1; 0; 0]%R (fun j => dxb j eta) = 0%R /\ wsumf 0 [1; 0; 0]%R (fun j => dyb j eta) = 0%R)
+  /\ (forall eta, wsumf 0 [0; 1; 0]%R (fun j => pb j eta) = fst eta /\ wsumf 0 [0; 1; 0]%R (fun j => dxb j eta) = 1%R /\ wsumf 0 [0; 1; 0]%R (fun j => dyb j eta) = 0%R)
+  /\ (forall eta, wsumf 0 [0; 0; 1]%R (fun j => pb j eta) = snd eta /\ wsumf 0 [0; 0; 1]%R (fun j => dxb j eta) = 0%R /\ wsumf 0 [0; 0; 1]%R (fun j => dyb j eta) = 1%R).
+Proof. exact lagrange_span_nonvacuous. Qed.
 (* with EXACT tables (delta = delta' = 0) and exact reproduction (eps = 0): at every such point the isoparametric map of every elevated
    element IS the affine map of its simplex, its Jacobian matrix IS column_stack((v0 - v2, v1 - v2)) and its determinant the simplex's *)
 Theorem C13_isoparametric_map_is_affine_exact : forall (X Y s1d : nat -> R) ref pe nV m conns,
